@@ -87,6 +87,10 @@ def confirm(out_dir, prop, name, wt):
 def check(name, tier):
     d = os.path.join(SEEDED, name)
     meta = json.load(open(os.path.join(d, "meta.json")))
+    if meta.get("out_of_statement"):
+        # confirmed as a behaviour change, but not a violation of the statement as given: kept, not claimed, not run
+        print("%-34s %s OUT-OF-STATEMENT (%s)" % (name, meta["property"], meta["out_of_statement"][:120]))
+        return 0
     # (a change written against one property may be the subject of another property's statement: meta names the check)
     prop = meta.get("check_property") or meta["property"]
     # VERIF_SEEDED_REPO: a frozen scratch worktree of /repo's HEAD to patch instead of /repo itself (used while something
